@@ -31,9 +31,12 @@ def isNd (v : Val) : Bool := v.isEmpty
 /-- `f(args)`: token `f+1`, the arguments, the closing token `0` -/
 def app (f : Nat) (args : List Val) : Val := (f + 1) :: (args.flatten ++ [0])
 
-/-- `fid = 0` is `standard.UserInput` (identity on its single input) -/
+/-- `fid = 0` is `standard.UserInput` (identity on its single input); `fid = 41` returns NOT_DATA for the input `c0`
+(a result may legitimately be "no data", also where an earlier run delivered data) -/
 def applyFn (fid : Nat) (ins : List Val) : Val :=
-  if fid = 0 then ins.headD nd else app fid ins
+  if fid = 0 then ins.headD nd
+  else if fid = 41 && ins.headD nd == [1001, 0] then nd   -- a function that has nothing to report for `c0`: NOT_DATA
+  else app fid ins
 
 /-- behaviours that differ between the code as pinned and the proposed repair -/
 structure Cfg where
